@@ -190,6 +190,7 @@ type olvmTx struct {
 	nonce uint64
 	price *big.Int
 	gas   int64
+	data  []byte
 }
 
 func decodeOLVM(raw []byte) (*olvmTx, bool) {
@@ -201,7 +202,7 @@ func decodeOLVM(raw []byte) (*olvmTx, bool) {
 	if err := m.Unmarshal(stx.Data); err != nil {
 		return nil, false
 	}
-	o := &olvmTx{from: keys.Address(m.From), value: m.Amount.Value.BigInt(), nonce: m.Nonce, price: stx.Fee.Price.Value.BigInt(), gas: stx.Fee.Gas}
+	o := &olvmTx{from: keys.Address(m.From), value: m.Amount.Value.BigInt(), nonce: m.Nonce, price: stx.Fee.Price.Value.BigInt(), gas: stx.Fee.Gas, data: m.Data}
 	if m.To != nil {
 		t := keys.Address(*m.To)
 		o.to = &t
@@ -353,7 +354,8 @@ func (r *runner) deliver(h int64, i int, raw []byte, kind, tag string) (*violati
 	rep := r.w.Primary()
 	where := fmt.Sprintf("h=%d tx#%d %s[%s]", h, i, kind, tag)
 	o, isOLVM := decodeOLVM(raw)
-	var preSender, preRecip, prePool *big.Int
+	var preSender, preRecip, prePool, prePayee *big.Int
+	var payee keys.Address
 	var preNonce uint64
 	var recip keys.Address
 	var rtype string
@@ -371,6 +373,11 @@ func (r *runner) deliver(h int64, i int, raw []byte, kind, tag string) (*violati
 		}
 		r.track(recip)
 		preSender, preRecip, prePool = r.v.nativeBal(o.from), r.v.nativeBal(recip), r.v.feePool()
+		if rtype == "nest" && len(o.data) >= 96 {
+			payee = keys.Address(o.data[12:32])
+			r.track(payee)
+			prePayee = r.v.nativeBal(payee)
+		}
 		before = r.v.snapshot()
 	}
 	d := rep.DeliverTx(raw)
@@ -425,7 +432,28 @@ func (r *runner) deliver(h int64, i int, raw []byte, kind, tag string) (*violati
 			}
 			wantS := new(big.Int).Neg(new(big.Int).Add(fee, moved))
 			wantR := new(big.Int).Set(moved)
-			known := rtype != "unknown" && rtype != "factory" // (a factory passes the value on to its child: judged by conservation)
+			known := rtype != "unknown" && rtype != "factory" && rtype != "nest" // (a factory passes the value on to its child: judged by conservation)
+			if rtype == "nest" && prePayee != nil && dS.Cmp(wantS) != 0 && !bytes.Equal(o.from, payee) {
+				return &violation{"sender-debit", cls, fmt.Sprintf("%s: sender balance changed by %s, want %s (nest call, value %s, status %s %s)", where, dS, wantS, o.value, status, errTxt)}, d
+			}
+			if rtype == "nest" && prePayee != nil && !bytes.Equal(o.from, payee) && !bytes.Equal(recip, payee) {
+				// the contract keeps the value or passes it on to the account named in its first calldata word (the inner frame's
+				// transfer is reverted): contract + payee receive exactly what moved, and nobody else's record changes
+				dP := new(big.Int).Sub(r.v.nativeBal(payee), prePayee)
+				if dR.Sign() < 0 || dP.Sign() < 0 || new(big.Int).Add(dR, dP).Cmp(moved) != 0 {
+					return &violation{"recipient-credit", cls, fmt.Sprintf("%s: nest contract %s changed by %s and its payee %s by %s, want both non-negative and %s in total (value %s, status %s %s)", where, recip.String(), dR, payee.String(), dP, moved, o.value, status, errTxt)}, d
+				}
+				for _, k := range diffSnap(before, after) {
+					if !strings.HasPrefix(k, "b_") || !strings.HasSuffix(k, "_OLT") {
+						continue
+					}
+					who := strings.TrimSuffix(strings.TrimPrefix(k, "b_"), "_OLT")
+					if who != keys.Address(o.from).String() && who != recip.String() && who != payee.String() {
+						return &violation{"third-party-balance", cls, fmt.Sprintf("%s: the balance record of %s, neither sender (%s), nest contract (%s) nor its payee (%s), changed from %s to %s",
+							where, who, keys.Address(o.from).String(), recip.String(), payee.String(), before[k], after[k])}, d
+					}
+				}
+			}
 			if ok && rtype == "kill" {
 				// SELFDESTRUCT(CALLER): what the contract held, plus the value, goes to the sender
 				wantS = new(big.Int).Add(new(big.Int).Neg(fee), preRecip)
